@@ -9,6 +9,7 @@ CONSTANT SrcPairs      \* Seq(<<left source index, right source index>>)
 SrcHeapsPair == [k \in DOMAIN SrcPairs |-> <<SrcTables[SrcPairs[k][1]], SrcTables[SrcPairs[k][2]]>>]
 
 IsJoined(t) == Cardinality(t.root) >= 2
+Summarized2(t) == \E c \in VisSet(t) : t.fk[c] = "a"
 LastWith(h, P(_)) == LET S == {i \in DOMAIN h : P(h[i])} IN IF S = {} THEN 0 ELSE Max(S)
 LCur(h) == LastWith(h, LAMBDA t : t.name = h[1].name /\ ~IsJoined(t))
 RCur(h) == LastWith(h, LAMBDA t : t.name = h[2].name /\ ~IsJoined(t))
@@ -69,6 +70,30 @@ MovesJoin(h, kn) ==
         ELSE (IF lc = 1 THEN PreVerbs(h[1], 1) ELSE <<>>)
              \o (IF rc = 2 THEN PreVerbs(h[2], 2) ELSE <<>>)
              \o JoinMoves(h, lc, rc)
+
+(* trimmed alphabet: an ordered / sliced / filtered / grouped-and-summarized side, then a join (SQL subquery rules for joins) *)
+MovesJoinS(h, kn) ==
+    LET lc == LCur(h)
+        rc == RCur(h)
+        jc == JCur(h)
+        nL == Cardinality({q \in DOMAIN h : h[q].name = h[1].name /\ ~IsJoined(h[q])})
+        nR == Cardinality({q \in DOMAIN h : h[q].name = h[2].name /\ ~IsJoined(h[q])})
+        pre(t, i) == LET a == ColOf(t, "a") b == ColOf(t, "b") IN
+                     (IF a # <<>> /\ b # <<>> THEN <<MArrange(i, <<Ord(Col(b[1]), FALSE, "first"), Ord(Col(a[1]), TRUE, "last")>>)>> ELSE <<>>)
+                     \o <<MSlice(i, 2, 0), MSlice(i, 2, 1)>>
+                     \o MapS(b, LAMBDA c : MFilter(i, <<Fn2("gt", Col(c), LitI(0))>>))
+                     \o MapS(b, LAMBDA c : MMutate(i, <<KV("w", Agg("sum", Col(c)))>>))
+                     \o MapS(b, LAMBDA c : MMutate(i, <<KV("k1", LitI(1))>>))
+                     \o (IF a # <<>> /\ b # <<>> THEN <<MSummarize(i, <<KV("b", Agg("max", Col(b[1])))>>)>> ELSE <<>>)
+                     \o (IF a # <<>> /\ t.part = <<>> /\ ~Summarized2(t) THEN <<MGroupBy(i, <<Col(a[1])>>, FALSE)>> ELSE <<>>)
+        jm(i, j) == LET la == ColOf(h[i], "a") ra == ColOf(h[j], "a") IN
+                    IF la # <<>> /\ ra # <<>>
+                    THEN <<MJoin(i, j, <<Fn2("eq", Col(la[1]), Col(ra[1]))>>, "inner", ""),
+                           MJoin(i, j, <<Fn2("eq", Col(la[1]), Col(ra[1]))>>, "left", ""),
+                           MJoin(i, j, <<Fn2("eq", Col(la[1]), Col(ra[1]))>>, "full", "")>>
+                    ELSE <<>>
+    IN  IF jc # 0 THEN <<>>
+        ELSE (IF nL <= 2 THEN pre(h[lc], lc) ELSE <<>>) \o (IF nR <= 2 THEN pre(h[rc], rc) ELSE <<>>) \o jm(lc, rc)
 
 ---------------------------------------------------------------------------
 PreUnion(t, i) ==
